@@ -186,8 +186,10 @@ Definition ser_mmember1 (mfs : MF) (d : dyn) (id : Z) (pos : Z) : res W :=
   match find_m id mfs with
   | None => Err E_ID
   | Some (m, _) =>
-    let pid := wrap_u16 id + (if m_mu m then 16384 else 0) in
-    if pid >? 65535 then Panic P_TODO else
+    (* the short parameter header holds a 14-bit id; larger ids are InvalidId (2cf9289);
+       `member_id as u16 | (m_flag << 14)` is a sum for id < 2^14 *)
+    if 16384 <=? id then Err E_ID else
+    let pid := id + (if m_mu m then 16384 else 0) in
     '(bpid, _) <- ser_prim KU16 pid (pos + blen pad) ;;
     (* Ssize::new (2 placeholder bytes) ; push_origin_0 *)
     '(body, p3) <- match lookup id d with
@@ -666,12 +668,21 @@ Definition des_union_nested (x : ext) (mgs : MG) (c : rctx) (pos : Z) : dres dyn
 Definition undata (r : dres val) : dres dyn :=
   v @ p <~ r ;; match v with VData d => DOk d p | _ => DErr E_TYPE p end.
 
-(* structures without members are exempt from the length-versus-bytes guard *)
-Definition is_empty_struct (e : ty) : bool := match e with TStruct _ [] => true | _ => false end.
+(* can_be_empty (8422ab4): a value of the type may occupy no bytes (a structure all of whose members
+   are non-optional and may be empty, an array of such elements or of length 0); collections of
+   such elements are exempt from the length-versus-bytes guard *)
+Fixpoint can_be_empty (t : ty) : bool :=
+  match t with
+  | TStruct _ ms =>
+    (fix go (ms : list (minfo * ty)) : bool :=
+       match ms with [] => true | (m, t') :: r => negb (m_opt m) && can_be_empty t' && go r end) ms
+  | TArr n e => (n =? 0) || can_be_empty e
+  | _ => false
+  end.
 
 (* deserialize_sequence_elements *)
 Definition des_elements (e : ty) (ge : G) (n : Z) (c : rctx) (pos : Z) : dres val :=
-  if negb (is_empty_struct e) && too_long c n pos then DErr E_NED pos else
+  if negb (can_be_empty e) && too_long c n pos then DErr E_NED pos else
   match e with
   | TPrim p =>
     match p with
